@@ -227,6 +227,8 @@ def instantiate(hyps: Sequence[Any], goal: Any, bank: TermBank, lib: SpecLib, ro
     """Generator-side E-matching: returns rule instances relevant to this VC."""
     m = _Matcher(bank, lib)
     m.learn_equalities(hyps)
+    for ex in lib.extra_instantiators:
+        getattr(ex, "reset", lambda: None)()          # per-VC state of an instantiator (pyvc.qpred)
     instances: list[Any] = []
     inst_keys: set[tuple] = set()
     seen_terms: set[int] = set()
